@@ -69,9 +69,27 @@ func cmpKey(id string) func(int) int {
 }
 
 // comparator returns the plain Go comparator of the family member.
+// three-way result with a magnitude that is NOT always 1: the library's comparator contract only
+// fixes the sign (negative / zero / positive), so the harness exercises comparators like `a - b`.
+// The magnitude depends on the operands only (replays are reproducible, the order is unchanged).
+func signMagnitude(ka, kb int) int {
+	c := cmp.Compare(ka, kb)
+	if c == 0 {
+		return 0
+	}
+	d := ka - kb
+	if d < 0 {
+		d = -d
+	}
+	if d < 0 { // overflow of the subtraction
+		d = 1
+	}
+	return c * (1 + d%3)
+}
+
 func comparator(id string) func(a, b int) int {
 	key := cmpKey(id)
-	return func(a, b int) int { return cmp.Compare(key(a), key(b)) }
+	return func(a, b int) int { return signMagnitude(key(a), key(b)) }
 }
 
 // countingComparator additionally counts its calls in *n.
@@ -79,7 +97,7 @@ func countingComparator(id string, n *int) func(a, b int) int {
 	key := cmpKey(id)
 	return func(a, b int) int {
 		*n++
-		return cmp.Compare(key(a), key(b))
+		return signMagnitude(key(a), key(b))
 	}
 }
 
